@@ -5,77 +5,82 @@ HERE = os.path.dirname(os.path.abspath(__file__))
 
 CLAIMED = {
  'C14': dict(
-   text='PARTIAL. That each collection contains a minimum basis is value-level and not claimed. Decided: every construction site of a CandidateCycle / SerializableCandidateCycle is reached only when the edge is not a predecessor edge of the tree, both endpoints have tree nodes and their first-in-path labels differ (exact path condition, truth table) - with a tree-shaped predecessor structure this makes the candidate a simple cycle through the root; the recorded weight is W[e] + weight(node(source e)) + weight(node(target e)) for that same edge and tree; the root node has weight zero; every visited tree node including the root gets a first-in-path label; the FVS collection is create_candidate_cycles() of trees rooted exactly at the greedy_fvs output and the isometric collection re-emits only (tree, edge) pairs read back from guarded Horton candidates (sub-collections by provenance); the lexicographic comparator behind the trees is consistent per rung.',
+   text='PARTIAL. That each collection contains a minimum basis is value-level and not claimed. Decided: every construction site of a CandidateCycle / SerializableCandidateCycle is reached only when the edge is not a predecessor edge of the tree, both endpoints have tree nodes and their first-in-path labels differ (exact path condition, truth table) - with a tree-shaped predecessor structure this makes the candidate a simple cycle through the root; the recorded weight is W[e] + weight(node(source e)) + weight(node(target e)) for that same edge and tree; the root node has weight zero; every visited tree node including the root gets a first-in-path label; the FVS collection is create_candidate_cycles() of trees rooted exactly at the greedy_fvs output and the isometric collection re-emits only (tree, edge) pairs read back from guarded Horton candidates (sub-collections by provenance); the lexicographic comparator behind the trees is consistent per rung. The id given to every shortest-path tree equals the position it gets in its container (trees.size() at insertion, a counter advanced exactly with every insertion, or the vertex index when a tree is inserted for every vertex), because every consumer indexes the container with cc.tree(); the reference members of the tree classes are initialised from reference parameters.',
    note='Assumes lex_dijkstra yields a shortest-path tree with exact distances (C12, value-level).',
    technique='exact CFG path conditions with truth tables over guard atoms, term-set comparison of the weight expression, provenance tracing, definite-labelling rule',
    ref='DESIGN.md §4 C14'),
  'C18': dict(
-   text='PARTIAL. Numeric values of gcds/inverses and primality by trial division are value-level and not claimed. Decided: in ext_gcd a path-sensitive abstract interpretation of the bool locals (contents "a<0", "b<0", true, false; std::swap and copies tracked; branches on known flags pruned) shows that every sign selector flowing into the coefficient of a holds "a was negative" and likewise for b, on every path; a symbolic interval analysis with bounds linear in p (sum, product, % p, the two normalisation while-loops or a single conditional subtraction, v != 0 guards) shows that every value pushed into an SpVecFP lies in [1, p-1]; operator+ and the dot product have the merge action tables of index-wise addition / inner product with both tails; compound operators are alias-safe and copy operations member-wise; a constant-divisor shortcut in is_prime never calls the divisor itself composite; get_mult_inverse throws unless the gcd is 1 and returns the coefficient of its first argument.',
+   text='PARTIAL. Numeric values of gcds/inverses and primality by trial division are value-level and not claimed. Decided: in ext_gcd a path-sensitive abstract interpretation of the bool locals (contents "a<0", "b<0", true, false; std::swap and copies tracked; branches on known flags pruned) shows that every sign selector flowing into the coefficient of a holds "a was negative" and likewise for b, on every path; a symbolic interval analysis with bounds linear in p (sum, product, % p, the two normalisation while-loops or a single conditional subtraction, v != 0 guards) shows that every value pushed into an SpVecFP lies in [1, p-1]; operator+ and the dot product have the merge action tables of index-wise addition / inner product with both tails; compound operators are alias-safe and copy operations member-wise; a constant-divisor shortcut in is_prime never calls the divisor itself composite; get_mult_inverse throws unless the gcd is 1 and returns the coefficient of its first argument. The trial-division loop condition, folded with t := q and p := q*q, must hold for odd primes q (the bound includes the square root).',
    note='Induction hypothesis: stored entries are in [1,p-1] and both operands share p >= 2; % truncates toward zero. Multiprecision instantiations are covered only in so far as they instantiate the same templates.',
    technique='path-sensitive abstract interpretation over a finite flag domain; symbolic interval analysis (bounds c + k*p); merge-loop action tables',
    ref='DESIGN.md §4 C18'),
  'C16': dict(
-   text='PARTIAL. That the BFS forest is spanning and acyclic is value-level and not claimed. Decided: create_index makes exactly one pass over boost::edges(g) in which each arm stores index[e] = c and reverse_index[c] = e for the same edge and counter and then increments that counter once, one arm per counter, the counters start at 0 and at num_edges - num_vertices + components (linear-form normalisation through the class\'s field definitions), the arm is selected by membership in the forest set with the right polarity, no index is handed out while iterating an address-ordered set; cycle_space_dimension / weak_connected_components / is_on_forest / both operator() have the required normal forms; spanning_forest returns 0 early only when there are no vertices (abstract evaluation of the guard) and otherwise a counter incremented exactly once per component-loop iteration; the hand-written copy constructor and assignment copy every data member.',
+   text='PARTIAL. That the BFS forest is spanning and acyclic is value-level and not claimed. Decided: create_index makes exactly one pass over boost::edges(g) in which each arm stores index[e] = c and reverse_index[c] = e for the same edge and counter and then increments that counter once, one arm per counter, the counters start at 0 and at num_edges - num_vertices + components (linear-form normalisation through the class\'s field definitions), the arm is selected by membership in the forest set with the right polarity, no index is handed out while iterating an address-ordered set; cycle_space_dimension / weak_connected_components / is_on_forest / both operator() have the required normal forms; spanning_forest returns 0 early only when there are no vertices (abstract evaluation of the guard) and otherwise a counter incremented exactly once per component-loop iteration; the hand-written copy constructor and assignment copy every data member. An early return in front of the numbering pass may only fire for an edgeless graph; every emission site of spanning_forest is reached only for a still unreached far endpoint, which is marked and queued in the same block.',
    note='Together these give the bijection and the "off-forest edges first" numbering for whatever edge set spanning_forest reports; the forest property of that set is assumed.',
    technique='per-path pairing on the CFG, linear-form normalisation, truth table of the arm guard, abstract evaluation of early-return guards, member-wise copy rule',
    ref='DESIGN.md §4 C16'),
  'C04': dict(
-   text='Decides the communication shape of the three library functions that execute collectives: both arms of every rank-conditioned branch run the same ordered sequence of collectives (name, root), every other branch or loop that decides whether a collective runs has a condition free of rank-dependent data (rank atoms, out-arguments of root-only collectives, their derivations), no exit depends on the rank, and in each phase the support vector is the argument of a broadcast on every path before it is used. The rank slices are evaluated abstractly (constant folding of the stride/start/end expressions in their C++ arithmetic) for 9 totals x 9 communicator sizes and must be an exact partition of 0..total-1; a sliced sequence whose order comes from a std::set<Edge> (address order) must be sorted by forest index first, and ForestIndex itself must not number edges while iterating such a set; serialize() archives every member once, is_mpi_datatype types are arithmetic-only, the MPI reduction operator is a minimum with not-found as identity, only rank 0 emits. Optimality of the result inherits the limits of C01/C02.',
+   text='Decides the communication shape of the three library functions that execute collectives: both arms of every rank-conditioned branch run the same ordered sequence of collectives (name, root), every other branch or loop that decides whether a collective runs has a condition free of rank-dependent data (rank atoms, out-arguments of root-only collectives, their derivations), no exit depends on the rank, and in each phase the support vector is the argument of a broadcast on every path before it is used. The rank slices are evaluated abstractly (constant folding of the stride/start/end expressions in their C++ arithmetic) for 9 totals x 9 communicator sizes and must be an exact partition of 0..total-1; a sliced sequence whose order comes from a std::set<Edge> (address order) must be sorted by forest index first, and ForestIndex itself must not number edges while iterating such a set; serialize() archives every member once, is_mpi_datatype types are arithmetic-only, the MPI reduction operator is a minimum with not-found as identity, only rank 0 emits. Optimality of the result inherits the limits of C01/C02. Inside a rank slice no state is carried from one index to the next and read there (its value would depend on where the slice starts).',
    note='Assumes identical graph contents on all ranks and boost::mpi collective semantics. Rank-invariance is a flow-insensitive taint argument; data merely written under a rank-conditioned branch is covered by the broadcast-before-use obligation instead.',
    technique='collective-sequence matching + rank taint on the AST/CFG; abstract evaluation of slice bounds over a finite grid; address-order taint with a sort sanitiser; truth table of the reduction operator',
    ref='DESIGN.md §3 A7/A8, §4 C04'),
  'C01': dict(
-   text='PARTIAL. That each emitted set is a simple cycle and that the family is independent depends on the searches on concrete graphs and is not claimed. Decided are necessary conditions visible in the five sibling implementations of the de Pina phase loop (sequential signed, trees, TBB, two MPI): one unconditional emission per phase k = 0..csd-1; the update `for l in k+1..csd: if (support[l]*C == 1) support[l] += support[k]` with C and the emitted list derived from the same search result and the search driven by support[k] read after the sparsest-support swap; a failed set<Edge>::insert during unfolding can never reach a success return (path-sensitive flag propagation); root-only emission under MPI; every visited tree node (root included) gets the first-in-path label the candidate guards compare; SpVecGF2 operator+/* are merges with the right action table, strict shortcut guards and alias-safe +=.',
+   text='PARTIAL. That each emitted set is a simple cycle and that the family is independent depends on the searches on concrete graphs and is not claimed. Decided are necessary conditions visible in the five sibling implementations of the de Pina phase loop (sequential signed, trees, TBB, two MPI): one unconditional emission per phase k = 0..csd-1; the update `for l in k+1..csd: if (support[l]*C == 1) support[l] += support[k]` with C and the emitted list derived from the same search result and the search driven by support[k] read after the sparsest-support swap; a failed set<Edge>::insert during unfolding can never reach a success return (path-sensitive flag propagation); root-only emission under MPI; every visited tree node (root included) gets the first-in-path label the candidate guards compare; SpVecGF2 operator+/* are merges with the right action table, strict shortcut guards and alias-safe +=. Also decided: parity propagation is an exclusive-or with "edge is signed" in SPTree::update_parities (which must run its traversal on every call: no exit in front of it except for an empty tree), in the bidirectional signed search and in the odd-candidate test; a search result is adopted as the phase\'s cycle only when the search reported success.',
    note='Breaking any of these breaks count, independence or simplicity on some input; holding them does not establish the property. The search functions are trusted to return (cycle, weight, found) triples.',
    technique='sibling cross-check of loop structure via linear forms, provenance tracing and exact CFG path conditions; flag-propagating reachability; merge-loop action tables',
    ref='DESIGN.md §4 C01'),
  'C02': dict(
-   text='PARTIAL. Minimality of each phase (stopping rule, pruning, tie-breaking, candidate sufficiency) is value-level and not claimed. Decided: the returned accumulator starts at zero and is increased exactly once per phase, under the same conditions as the emission, by the weight component of the very triple whose cycle is emitted; while a cycle is assembled every inserted edge has its own weight added and vice versa; every running-best update has the path condition found(x) & (!found(best) | less(w(x), w(best))) (truth table over all update sites of a loop); a first-found lookup is only built over a candidate vector sorted ascending on every path; pruning limits are (found, weight) of one running best; the hidden-edge heuristic erases on every iteration; lexicographic comparators are consistent per rung.',
+   text='PARTIAL. Minimality of each phase (stopping rule, pruning, tie-breaking, candidate sufficiency) is value-level and not claimed. Decided: the returned accumulator starts at zero and is increased exactly once per phase, under the same conditions as the emission, by the weight component of the very triple whose cycle is emitted; while a cycle is assembled every inserted edge has its own weight added and vice versa; every running-best update has the path condition found(x) & (!found(best) | less(w(x), w(best))) (truth table over all update sites of a loop); a first-found lookup is only built over a candidate vector sorted ascending on every path; pruning limits are (found, weight) of one running best; the hidden-edge heuristic erases on every iteration; lexicographic comparators are consistent per rung. Also decided: the relaxation contract of every label store in the four search routines, the pruning rule of the bidirectional search (break only with an empty frontier or when the sum of the two frontier minima, taken from different frontiers, is not below the best meeting point), and weight comparators evaluated over the orderings of the two weights (a difference narrowed to an integer is reported as lossy).',
    note='These are the bookkeeping clauses of "value returned = sum of emitted weights" and the necessary selection contract for "minimum"; optimality itself is not established.',
    technique='finite predicate abstraction (truth tables) on exact CFG path conditions; provenance tracing; dominance; per-iteration post-dominance',
    ref='DESIGN.md §4 C02'),
  'C17': dict(
-   text='operator+ and both operator* of SpVecGF2 are recognised as two-cursor merge loops and their per-ordering action tables (a<b, a==b, a>b) are compared with the tables of symmetric difference / parity of the intersection, including the two tail loops, the accumulator toggle and its initial value; any shortcut in front of the merge must concatenate the operands only under a guard that excludes max(first) >= min(second); every source of the coordinate list is canonical (unit ctor, std::set ctor with default comparator, member-wise copy/move/assignment, forwarding accessors); compound operators do not touch their own storage before reading an argument that may alias it. Together with the (pen-and-paper) meta-theorem about such merge tables this decides canonical form for every history of the listed operations.',
+   text='operator+ and both operator* of SpVecGF2 are recognised as two-cursor merge loops and their per-ordering action tables (a<b, a==b, a>b) are compared with the tables of symmetric difference / parity of the intersection, including the two tail loops, the accumulator toggle and its initial value; any shortcut in front of the merge must concatenate the operands only under a guard that excludes max(first) >= min(second); every source of the coordinate list is canonical (unit ctor, std::set ctor with default comparator, member-wise copy/move/assignment, forwarding accessors); compound operators do not touch their own storage before reading an argument that may alias it. Together with the (pen-and-paper) meta-theorem about such merge tables this decides canonical form for every history of the listed operations. Three-way comparisons through a stored difference are evaluated by the signedness and width of the variable (a difference narrowed to int is reported); a look-up shortcut in front of the dot-product merge must return the count modulo 2 or toggle.',
    note='Meta-theorem recorded in sa/rules/c17.py; an implementation outside the merge/std-algorithm idioms is reported as undecided (exit 2), never as a pass. add() is outside the operation list.',
    technique='merge-loop action tables (A9) + truth tables over orderings for shortcut guards + aliasing rule via effect analysis',
    ref='DESIGN.md §4 C17'),
  'C03': dict(
-   text='For each of the 12 tbb::parallel_for / parallel_reduce call sites of the library (all specialisations of the generic-lambda bodies) an effect analysis classifies every write of the task body as W-local, W-concurrent (growth of a tbb::concurrent_* container) or W-own-index (v[i] with i the induction variable of the task\'s own blocked_range, every other access to v being v[i] or a read v[j] with j proved outside the whole parallel range by linear-form subtraction); anything else, and any static-storage write in a transitive callee, is a race. For parallel_reduce the identity, the join (truth table over found flags and weight orderings: a minimum that treats not-found as identity) and the body (returns its accumulator, updates it only under found(x) & (!found(acc) | less)) are decided exactly. These are the schedule-independent clauses; "delivers the sequential contract" beyond them inherits the limits of C01/C02.',
+   text='For each of the 12 tbb::parallel_for / parallel_reduce call sites of the library (all specialisations of the generic-lambda bodies) an effect analysis classifies every write of the task body as W-local, W-concurrent (growth of a tbb::concurrent_* container) or W-own-index (v[i] with i the induction variable of the task\'s own blocked_range, every other access to v being v[i] or a read v[j] with j proved outside the whole parallel range by linear-form subtraction); anything else, and any static-storage write in a transitive callee, is a race. For parallel_reduce the identity, the join (truth table over found flags and weight orderings: a minimum that treats not-found as identity) and the body (returns its accumulator, updates it only under found(x) & (!found(acc) | less)) are decided exactly. These are the schedule-independent clauses; "delivers the sequential contract" beyond them inherits the limits of C01/C02. Also decided: schedule independence of the per-index work (no local carried between the iterations of the sub-range loop and read there; no read of a shared atomic).',
    note='Assumes disjoint node ownership of distinct SPTree objects, TBB\'s documented concurrency guarantees for concurrent_vector growth, and that non-repo callees do not modify const-reference arguments.',
    technique='parallel-body effect analysis (access paths, own-index proof by linear forms) + finite predicate abstraction (truth tables) of join/body on exact CFG path conditions',
    ref='DESIGN.md §3 A6/A3, §4 C03'),
  'C07': dict(
-   text='Decides five named UB shapes on the resolved program, each a genuine way the property fails: internal spanner descriptors escaping to the caller (world inference), reference members bound to dying non-empty temporaries at every direct/emplace/make_shared construction site, NUL stores into the fgets buffer that can hit buffer[-1] and unbounded %s conversions, dereference of end(), and unchecked v[i] in blocked_range task bodies whose range bound is not tied to the container size. General absence of out-of-bounds accesses, overflow, leaks and uninitialised reads is NOT claimed: no sound static argument in reach bounds the indices and integer ranges of the Dijkstra/heap/BFS loops.',
+   text='Decides five named UB shapes on the resolved program, each a genuine way the property fails: internal spanner descriptors escaping to the caller (world inference), reference members bound to dying non-empty temporaries at every direct/emplace/make_shared construction site, NUL stores into the fgets buffer that can hit buffer[-1] and unbounded %s conversions, dereference of end(), and unchecked v[i] in blocked_range task bodies whose range bound is not tied to the container size. General absence of out-of-bounds accesses, overflow, leaks and uninitialised reads is NOT claimed: no sound static argument in reach bounds the indices and integer ranges of the Dijkstra/heap/BFS loops. A reference member initialised from a by-value constructor parameter of non-empty type is reported (dangling after the constructor returns); the optional DIMACS weight must be initialised before the sscanf (no read of an indeterminate double).',
    note='Partial by design; temporaries of empty classes bound to reference members are reported as info only (no execution can observe them).',
    technique='escape analysis via world inference; lifetime rule over construction sites; guarded-store rule on the CFG; container/range agreement with inter-procedural fill-site tracing',
    ref='DESIGN.md §4 C07'),
  'C05': dict(
-   text='A two-world affinity inference (caller graph G vs internal spanner S: same C++ type, different ownership) over all instantiated approximate algorithms decides that nothing reaching the caller\'s output iterator is a descriptor of S, that every weight term of the returned value is read through the caller\'s map for the emitted edge, that each spanner edge gets the input weight and a translation-table entry on the path that adds it, that the table is read with at()/find, that every BGL call pairs descriptors with their own graph, and that the exact phase is skipped only for (m, n) for which every simple graph is a forest. These are the structural ways the descriptor/weight clauses can fail; that the cycles form a basis is value-level and not claimed.',
+   text='A two-world affinity inference (caller graph G vs internal spanner S: same C++ type, different ownership) over all instantiated approximate algorithms decides that nothing reaching the caller\'s output iterator is a descriptor of S, that every weight term of the returned value is read through the caller\'s map for the emitted edge, that each spanner edge gets the input weight and a translation-table entry on the path that adds it, that the table is read with at()/find, that every BGL call pairs descriptors with their own graph, and that the exact phase is skipped only for (m, n) for which every simple graph is a forest. These are the structural ways the descriptor/weight clauses can fail; that the cycles form a basis is value-level and not claimed. The caller\'s output iterator is not reused after it was passed by value to something that writes through it, and an accumulated weight is not overwritten.',
    note='Flow-insensitive per variable, inter-procedural over the approx classes; BGL accessor semantics and the summary "exact entry points emit only descriptors of their graph argument" are trusted. Number and independence of cycles are not decided.',
    technique='type-like world inference (abstract interpretation over a 4-point lattice + key/value worlds) on the instantiated AST; CFG path enumeration; finite abstract evaluation of guards',
    ref='DESIGN.md §3 A5, §4 C05'),
  'C06': dict(
-   text='The rejecting guard of run() is constant-folded with k := 0 and k in {1,2,3,7,1000} in the modular arithmetic of its C++ type (so an unsigned wrap-around is seen) and must dominate every use of the iterator; the hop bound is evaluated over a (k, n) grid against [min(2k-1, n-1), 2k-1]; the scan order, weighted spanner, non-skipped exact phase, Dijkstra-on-S closing path and absence of an early exit in the relaxation loop of parmcb::dijkstra are checked structurally. The numeric (2k-1) bound follows from these premises by the textbook argument, which is not mechanised: the bound itself is not claimed.',
+   text='The rejecting guard of run() is constant-folded with k := 0 and k in {1,2,3,7,1000} in the modular arithmetic of its C++ type (so an unsigned wrap-around is seen) and must dominate every use of the iterator; the hop bound is evaluated over a (k, n) grid against [min(2k-1, n-1), 2k-1]; the scan order, weighted spanner, non-skipped exact phase, Dijkstra-on-S closing path and absence of an early exit in the relaxation loop of parmcb::dijkstra are checked structurally. The numeric (2k-1) bound follows from these premises by the textbook argument, which is not mechanised: the bound itself is not claimed. A closing path computed by a search that is not given the spanner\'s weight map is reported; the hop test of the bounded BFS answers true only within the bound.',
    note='Premises only; is_bfs_reachable/dijkstra functional correctness beyond the named clauses is assumed.',
    technique='abstract evaluation (constant folding in the type\'s arithmetic) of guards and bounds; dominance on the CFG; world inference',
    ref='DESIGN.md §4 C06'),
  'C15': dict(
-   text='Every structural clause of the greedy spanner construction is decided on the CFG/AST of construct_spanner and is_bfs_reachable: the whole edge set is scanned in non-decreasing input weight; each path through an iteration performs exactly one of retain/drop; the hop bound evaluates to 2k-1 on a (k, n) grid; an edge is retained exactly when the bounded BFS says "not reachable"; the BFS can answer true only within the bound; retained edges carry the input weight and are recorded in the translation table; all BGL calls respect graph ownership.',
+   text='Every structural clause of the greedy spanner construction is decided on the CFG/AST of construct_spanner and is_bfs_reachable: the whole edge set is scanned in non-decreasing input weight; each path through an iteration performs exactly one of retain/drop; the hop bound evaluates to 2k-1 on a (k, n) grid; an edge is retained exactly when the bounded BFS says "not reachable"; the BFS can answer true only within the bound; retained edges carry the input weight and are recorded in the translation table; all BGL calls respect graph ownership. The scan comparator is evaluated over the orderings of the two weights, with tolerance tests abs(w1 - w2) > c as a separate atom (ties by tolerance are reported); a retain/drop verdict read from a distance table left behind by an earlier, early-exiting search is reported.',
    note='Assumes FIFO order of std::queue and completeness of the BFS exploration; stretch/girth as graph-theoretic consequences are not re-proved.',
    technique='CFG path enumeration, A3 truth tables over orderings, abstract evaluation of the bound, world inference',
    ref='DESIGN.md §4 C15'),
  'C20': dict(
-   text='Decides on the instantiated AST/CFG that every tbb::global_control created by set_global_tbb_concurrency is stored, on every path and on every call, into an owner with static storage duration (or returned to the caller), and that in each demo main with a "cores" option the knob call reaches every *_tbb entry-point call and its control dependence relative to those calls consists only of the options cores/parallel with positive polarity. These are exactly the two ways the property can fail; both are visible in the shape of the code.',
+   text='Decides on the instantiated AST/CFG that every tbb::global_control created by set_global_tbb_concurrency is stored, on every path and on every call, into an owner with static storage duration (or returned to the caller), and that in each demo main with a "cores" option the knob call reaches every *_tbb entry-point call and its control dependence relative to those calls consists only of the options cores/parallel with positive polarity. These are exactly the two ways the property can fail; both are visible in the shape of the code. A thread_local owner is reported (a later call from another thread does not release the limit); the demos\' knob condition is resolved through boolean locals to option atoms.',
    note='Assumes TBB semantics of global_control (limit in force while the object is alive). Only the TBB configuration is analysed (the knob does not exist otherwise). Option atoms are recognised as vm["key"].as<T>() / vm.count("key"); anything else is reported as undecided (exit 2), never as a pass.',
    technique='storage-duration / escape rule on the resolved AST + relative control dependence on the clang CFG',
    ref='DESIGN.md §4 C20'),
+ 'C10': dict(
+   text='read_dimacs_from_file and the three validators are decided on their CFG/AST. Reader: a NUL written into the fgets buffer only ever replaces a line terminator (strcspn with a reject set inside {CR, LF} that contains LF, or a strlen-relative store guarded by a test of that same byte), so an unterminated final line keeps its last character and buffer[-1] is never written; the destination of the optional trailing %lf is assigned 1 by a definition inside the line loop that dominates the sscanf (a hoisted, uninitialised or conditionally reset default is reported); every read of the vertex table happens only for a declared vertex - std::map: dominated by a membership test whose missing branch leaves the function; std::vector: the guards are evaluated abstractly, in C++ conversion arithmetic, for ids -3,-1,0,1,n,n+1,n+7 and must admit exactly 1..n; the vertex loop runs nnodes times under the problem line and names vertices 1..n; exactly one add_edge per a/e line with endpoints looked up by the first/second %d and the parsed weight stored for the returned descriptor; tests of the sscanf conversion count are evaluated over the counts a well-formed edge line can produce; %s conversions are bounded. Validators: has_loops / has_non_positive_weights are exists-loops over all edges whose predicate has the required truth table (w<0, w==0, w>0 -> T,T,F; a comparison with a non-zero threshold is reported); has_multiple_edges is recognised in three idioms (per-vertex fresh set, sort + adjacent_find, one pass over normalised endpoint pairs) with their side conditions.',
+   note='Decimal parsing itself is sscanf\'s; lines longer than the buffer are outside the property. An implementation outside the idiom tables is reported as undecided (exit 2), never as a pass.',
+   technique='guarded-store and dominance rules on the clang CFG, exact path conditions with truth tables, linear forms for the loop count, abstract evaluation of range guards in C++ arithmetic',
+   ref='DESIGN.md §4 C10'),
  'C11': dict(
-   text='On the CFG of each of the four demo mains: every validator applied to the graph read from the file dominates every call that reaches library algorithm code (call-graph closure), its rejecting edge reaches only non-zero return/exit with a diagnostic and no algorithm call, no validator or exit of the MPI main is control dependent on the rank, every exit after an algorithm call has status 0, and the value printed after "MCB weight = " is definitely assigned from an entry point. Gating, exit status and rank-uniform termination are decided for every input and rank count; that the printed number is the optimum inherits the limits of C02.',
+   text='On the CFG of each of the four demo mains: every validator applied to the graph read from the file dominates every call that reaches library algorithm code (call-graph closure), its rejecting edge reaches only non-zero return/exit with a diagnostic and no algorithm call, no validator or exit of the MPI main is control dependent on the rank, every exit after an algorithm call has status 0, and the value printed after "MCB weight = " is definitely assigned from an entry point. Gating, exit status and rank-uniform termination are decided for every input and rank count; that the printed number is the optimum inherits the limits of C02. The value 0 of --cores ("all cores") never reaches the TBB knob as 0 (it is replaced by a positive thread count under a test equivalent to == 0, or the knob call is guarded).',
    note='All ranks are assumed to read the same file. assert() failures are not counted as exits. Pinned configuration (TBB+MPI) only. The (2k-1) range of the approximate demo is not decided here.',
    technique='dominance, reachability and control-dependence rules over the clang CFG of each main; call-graph closure for "runs an algorithm"',
    ref='DESIGN.md §4 C11'),
  'C19': dict(
-   text='Every public header is compiled alone (and first) in every build configuration with clang++ (g++ too in the thorough tier), its templates are instantiated in such a TU, every definition in a header is checked for inline/template/internal linkage on the type-checked AST, and two objects including all headers are linked. A compile/link question is decided exactly by compiling and linking; nothing is executed.',
+   text='Every public header is compiled alone (and first) in every build configuration with clang++ (g++ too in the thorough tier), its templates are instantiated in such a TU, every definition in a header is checked for inline/template/internal linkage on the type-checked AST, and two objects including all headers are linked. A compile/link question is decided exactly by compiling and linking; nothing is executed. Full explicit specialisations count as ordinary (non-template) definitions for the ODR rule.',
    note='Trusted: clang 14 / g++ 12 front ends and GNU ld; the four config.hpp variants CMake can produce here; *_tbb.hpp and mpi/ headers are not required to compile without TBB/MPI. Instantiation witnesses use adjacency_list<vecS,vecS,undirectedS> with double and int weights.',
    technique='compile-fail / link witnesses + AST rule (libTooling) for non-inline header definitions',
    ref='DESIGN.md §4 C19'),
